@@ -278,6 +278,8 @@ def write_evidence(pid, tier, seed, results, all_obs, bounded, known_hits, viola
                        notes=r['notes'][:5]) for r in results],
             all_commands=cmds,
             solver_s_total=round(sum(o.get('secs', 0) for o in all_obs), 1),
+            jobs_with_reused_verdict=sorted(r['job'] for r in results if r.get('cached')),
+            jobs_solved_in_this_run=sorted(r['job'] for r in results if not r.get('cached')),
         ),
         assumptions=sorted(set(a for r in results for a in r['jobdef'].get('assumptions', []))) + COMMON_ASSUMPTIONS,
         wall_s=round(wall, 1),
@@ -296,6 +298,7 @@ COMMON_TRUSTED = [
 COMMON_ASSUMPTIONS = [
     "verified instantiation: T = double (and float where listed); long double is not verified (CBMC models it as binary128)",
     "vectors are modelled as {pointer, length}; capacity, allocation failure and destructors are not modelled",
+    "jobs whose notes say 'verdict reused' were not re-solved in this run: their verdict was stored (verdicts/ or out/cache) when the byte-identical translation unit (extracted from /repo again on this run) + prelude + job definition was verified earlier with the same tools in this sandbox image; VP_NOCACHE=1 re-runs every solver",
 ]
 
 
